@@ -1889,6 +1889,11 @@ class Method:
         allowed.
         """
 
+        # Pagination is a request/response protocol: a streaming method is
+        # never wrapped in a pager.
+        if self.client_streaming or self.server_streaming:
+            return None
+
         for source, source_type, name in (
             (self.input, str, "page_token"),
             (self.output, str, "next_page_token"),
